@@ -451,15 +451,32 @@ def _tblock(stmts, env, result):
             return ('(if %s then %s else %s)' % (c, a, b), ta)
         names = _assigned([st])
         need(names is not None and names, 'kernel: if-block with statements other than assignments')
-        # a variable first assigned inside the if is local to its branch (a later use outside fails as an unknown name)
-        names = [nm for nm in names if nm in env]
+        # a variable first assigned inside the if is local to its branch (a later use outside fails as an unknown name) - unless both branches assign it
+        def definite(stmts):
+            d = set()
+            for x in stmts:
+                if isinstance(x, (ast.Assign, ast.AugAssign)):
+                    t = x.targets[0] if isinstance(x, ast.Assign) else x.target
+                    d.add(t.id)
+                elif isinstance(x, ast.If):
+                    d |= definite(x.body) & definite(x.orelse)
+            return d
+        both = definite(st.body) & definite(st.orelse)
+        names = [nm for nm in names if nm in env or nm in both]
         need(names, 'kernel: if-block that changes no variable of the enclosing block')
-        tys = [env[nm][1] for nm in names]
+        seen_ty = {}
+
+        def probe(e):
+            for nm in names:
+                seen_ty[nm] = e[nm][1]
+            return ('tt', 'unit')
+        _tblock(st.body, env, probe)
+        tys = [env[nm][1] if nm in env else seen_ty[nm] for nm in names]
         tup = lambda e: (e[names[0]][0] if len(names) == 1 else '(' + ', '.join(e[nm][0] for nm in names) + ')', '*'.join(tys))
 
         def branch(body):
             def res(e):
-                need(all(e[nm][1] == env[nm][1] for nm in names), 'kernel: a variable changes its type inside an if')
+                need(all(e[nm][1] == ty for nm, ty in zip(names, tys)), 'kernel: a variable has different types in the branches of an if')
                 return tup(e)
             return _tblock(body, env, res)[0]
         fresh = ['v_%s_%d' % (nm, len(env)) for nm in names]
@@ -1079,6 +1096,37 @@ def main(out_path):
         need(len(sp) == 1 and isinstance(sp[0].body[0], ast.Continue) and ast.unparse(sp[0].test) == 'algorithm_recommendation_suppress_list is not None and name in algorithm_recommendation_suppress_list',
              'get_algorithm_recommendations: suppression test')
     soft('recommendation decisions (Algorithms.get_recommendations, get_algorithm_recommendations)', ['C13'], ex_recs)
+
+    def ex_resolve_family():
+        rs = func_node(t_sock, 'SSH_Socket._resolve')
+        body = [st for st in rs.body if not (isinstance(st, ast.Expr) and isinstance(st.value, ast.Constant))]
+        need(isinstance(body[0], ast.If) and ast.unparse(body[0].test) == 'len(self.__ip_version_preference) == 1', '_resolve: starts with the choice of the address family')
+        ins = {'self.__ip_version_preference': ('pref', 'list Z'), 'socket.AF_INET': ('(2)', 'Z'), 'socket.AF_INET6': ('(10)', 'Z'), 'socket.AF_UNSPEC': ('(0)', 'Z')}
+        w(kernel('src_resolve_family', [('pref', 'list Z')], [body[0]], inputs=ins, result='family'))
+        gai = [n for n in ast.walk(rs) if isinstance(n, ast.Call) and ast.unparse(n.func) == 'socket.getaddrinfo']
+        need(len(gai) == 1 and [ast.unparse(a) for a in gai[0].args] == ['self.__host', 'self.__port', 'family', 'stype'], '_resolve: getaddrinfo(host, port, family, stype)')
+        srt = [n for n in ast.walk(rs) if isinstance(n, ast.If) and ast.unparse(n.test) == 'len(self.__ip_version_preference) == 2']
+        need(len(srt) == 1 and len(srt[0].body) == 1 and isinstance(srt[0].body[0].value, ast.Call) and ast.unparse(srt[0].body[0].value.func) == 'sorted', '_resolve: the sort for two preferences')
+        kw = {k.arg: k.value for k in srt[0].body[0].value.keywords}
+        need(set(kw) == {'key', 'reverse'} and ast.unparse(kw['key']) == 'lambda x: x[0]', '_resolve: sorted(r, key=family, reverse=...)')
+        w(kernel('src_resolve_reverse', [('pref', 'list Z')], [ast.Return(value=kw['reverse'])], inputs=ins))
+    soft('address family choice and sort direction (SSH_Socket._resolve)', ['C18'], ex_resolve_family)
+
+    def ex_print_ascii():
+        # utils.py: the character filters of is_print_ascii / to_print_ascii (lambda bodies) and the replacement character of _to_ascii
+        t_ut = ast.parse(src('utils.py'))
+        lams = {}
+        for fname in ('is_print_ascii', 'to_print_ascii'):
+            f = func_node(t_ut, 'Utils.' + fname)
+            ls = [n for n in ast.walk(f) if isinstance(n, ast.Lambda)]
+            need(len(ls) == 1 and [a.arg for a in ls[0].args.args] == ['x'], 'Utils.%s: one filter lambda over x' % fname)
+            lams[fname] = ls[0]
+            w(kernel('src_%s_filter' % fname, [('x', 'Z')], [ast.Return(value=ls[0].body)]))
+        ta = func_node(t_ut, 'Utils._to_ascii')
+        reps = [n for n in ast.walk(ta) if isinstance(n, ast.Call) and ast.unparse(n.func) == 'r.append' and isinstance(n.args[0], ast.Constant)]
+        need(len(reps) == 1 and isinstance(reps[0].args[0].value, int), 'Utils._to_ascii: replacement character')
+        w('Definition src_to_ascii_replacement : Z := %d.' % reps[0].args[0].value)
+    soft('printable-ASCII filters (Utils)', ['C16'], ex_print_ascii)
 
     def ex_thread_protocol():
         # C07's model (Multi.get_db / wdel / per-worker configuration copy) states a protocol; the statements that implement it are matched literally
